@@ -382,7 +382,11 @@ namespace sim
           depth *= 0.5;
       }
     else if (ds < 0.2)
-      depth = 1e-3;
+      {
+        // next to the surface, on either side of it
+        static const double tiny[] = {1e-3, 1e-9, -1e-9, 5e-12, -3e-10, 2.2e-16, -2.2e-16, 1e-7};
+        depth = tiny[rng.below(8)];
+      }
     else if (ds < 0.6)
       depth = rng.real(0, 200e3);
     else
